@@ -273,6 +273,12 @@ def q2dedup(ctx):
                 out.append(Inst("Q2DEDUP", "release:%s" % r.detail["method"], keyed and not cd_bad, r.site(),
                                 "PUBREL releases the identifier with %s (%s%s)" % (r.detail["method"], "by value" if keyed else "by position", ", " + ",".join(cd_bad) if cd_bad else ""),
                                 "the identifier of the PUBREL is released wherever it is stored (a later PUBLISH reusing it is a new message)"))
+            # the bookkeeping is released by PUBREL only (PUBCOMP / PUBACK belong to the outbound identifier space)
+            for x in effs:
+                if x.kind in ("Remove", "Clear") and x.detail["fields"] & guard_fields:
+                    arm_x = arm_of(hp, arms, otherwise, x.bb)
+                    out.append(Inst("Q2DEDUP", "release-in:%s" % arm_x, arm_x == "Pubrel", x.site(), "Session.%s is released in arm %s" % (sorted(x.detail["fields"] & guard_fields), arm_x),
+                                    "only an inbound PUBREL releases an inbound QoS 2 identifier"))
             # recognition of a re-delivery must not depend on the DUP flag
             dup_dep = []
             for x in [e] + adds:
